@@ -40,7 +40,7 @@ impl<T> MethodMatcher<T> {
                 if methods.is_empty() {
                     self.any_method.insert(route);
                 } else {
-                    if route.exclude_methods().is_some() {
+                    if route.exclude_methods() == Some(true) {
                         self.exclude_methods
                             .entry(methods.clone())
                             .or_insert_with(|| HeaderMatcher::new(config.clone()))
